@@ -118,6 +118,77 @@ theorem centre_is_where_the_time_map_puts_it (p : Par α) (x : LStage) (k : Nat)
   field_simp
   ring
 
+/-! ### the gain multiplies the whole table (C12: "gain applied exactly once"), exact arithmetic over any commutative ring -/
+
+/-- the loop's arithmetic in a commutative ring; `.5` and `1/6.` are whatever elements `h`, `s` (no division needed) -/
+def ringOps (R : Type) [CommRing R] (h s : R) : Ops R :=
+  { zero := 0, add := (· + ·), sub := (· - ·), mul := (· * ·), half := h, sixth := s, four := 4 }
+
+theorem comp_scales {R : Type} [CommRing R] (h s m a b c d : R) (ord ci : Nat) (hord : ord ≤ 3) :
+    (comp (ringOps R h s) ord (m * a) (m * b) (m * c) (m * d)).get ci = m * (comp (ringOps R h s) ord a b c d).get ci := by
+  have hget : ∀ e : Entry R, e.get ci = if ci = 0 then e.f0 else if ci = 1 then e.b else if ci = 2 then e.c else e.d := by
+    intro e
+    rcases Nat.lt_or_ge ci 3 with h3 | h3
+    · rcases (by omega : ci = 0 ∨ ci = 1 ∨ ci = 2) with rfl | rfl | rfl <;> simp [Entry.get]
+    · obtain ⟨k, rfl⟩ := Nat.exists_eq_add_of_le' h3
+      simp [Entry.get]
+  rw [hget, hget]
+  rcases (by omega : ord = 0 ∨ ord = 1 ∨ ord = 2 ∨ ord = 3) with rfl | rfl | rfl | rfl <;>
+    simp only [comp, ringOps] <;> split_ifs <;> ring
+
+/-- a call of `prepare_poly_fir_coefs` in a commutative ring with multiplier `m` -/
+def rpar {R : Type} [CommRing R] (h s : R) (coefs : Nat → R) (nc P ord : Nat) (simd : Bool) (m : R) : Par R :=
+  { o := ringOps R h s, coefs := coefs, mult := m, nc := nc, P := P, ord := ord, simd := simd }
+
+theorem F_scales {R : Type} [CommRing R] (h s m : R) (coefs : Nat → R) (nc P ord : Nat) (simd : Bool) (q : Int) :
+    F (rpar h s coefs nc P ord simd m) q = m * F (rpar h s coefs nc P ord simd 1) q := by
+  unfold F
+  by_cases h1 : q = ((rpar h s coefs nc P ord simd m).nc : Int) * (rpar h s coefs nc P ord simd m).P - 2
+  · rw [if_pos h1, if_pos (show q = ((rpar h s coefs nc P ord simd 1).nc : Int) * (rpar h s coefs nc P ord simd 1).P - 2 from h1)]
+    show coefs 0 * m = m * (coefs 0 * 1); ring
+  · rw [if_neg h1, if_neg (show ¬ q = ((rpar h s coefs nc P ord simd 1).nc : Int) * (rpar h s coefs nc P ord simd 1).P - 2 from h1)]
+    by_cases h2 : q < 0
+    · rw [if_pos h2, if_pos h2]; show (0 : R) = m * 0; ring
+    · rw [if_neg h2, if_neg h2]
+      by_cases h3 : q < ((rpar h s coefs nc P ord simd m).nc : Int) * (rpar h s coefs nc P ord simd m).P - 2
+      · rw [if_pos h3, if_pos (show q < ((rpar h s coefs nc P ord simd 1).nc : Int) * (rpar h s coefs nc P ord simd 1).P - 2 from h3)]
+        show coefs q.toNat * m = m * (coefs q.toNat * 1); ring
+      · rw [if_neg h3, if_neg (show ¬ q < ((rpar h s coefs nc P ord simd 1).nc : Int) * (rpar h s coefs nc P ord simd 1).P - 2 from h3)]
+        show (0 : R) = m * 0; ring
+
+theorem E_scales {R : Type} [CommRing R] (h s m : R) (coefs : Nat → R) (nc P ord : Nat) (simd : Bool) (hord : ord ≤ 3) (i j ci : Nat) :
+    (E (rpar h s coefs nc P ord simd m) i j).get ci = m * (E (rpar h s coefs nc P ord simd 1) i j).get ci := by
+  unfold E
+  simp only [F_scales h s m coefs nc P ord simd]
+  exact comp_scales h s m _ _ _ _ ord ci hord
+
+/-- **The gain multiplies every cell of the table, once**: the table built with multiplier `m` is `m ×` the table built with
+    multiplier 1, cell by cell over the whole allocation — every order, both layouts, any prototype (exact arithmetic in any
+    commutative ring; with `dot_scaled_table` of `Properties/C12Fir` a gain folded into the table is that gain on the output). -/
+theorem gain_scales_whole_table {R : Type} [CommRing R] (h s m : R) (coefs : Nat → R) (nc P ord : Nat) (simd : Bool) (hord : ord ≤ 3)
+    (x : Nat) : prep (rpar h s coefs nc P ord simd m) x = m * prep (rpar h s coefs nc P ord simd 1) x := by
+  have A := prep_spec (rpar h s coefs nc P ord simd m) hord
+  have B := prep_spec (rpar h s coefs nc P ord simd 1) hord
+  by_cases hx : ∃ i j ci, i < nc ∧ j < P ∧ ci ≤ ord ∧
+      x = (rpar h s coefs nc P ord simd 1).idx j ci ((rpar h s coefs nc P ord simd 1).len - 1 - i)
+  · obtain ⟨i, j, ci, hi, hj, hci, rfl⟩ := hx
+    have a := A.1 i j ci hi hj hci
+    have b := B.1 i j ci hi hj hci
+    rw [b]
+    have ea : (rpar h s coefs nc P ord simd m).idx j ci ((rpar h s coefs nc P ord simd m).len - 1 - i) =
+        (rpar h s coefs nc P ord simd 1).idx j ci ((rpar h s coefs nc P ord simd 1).len - 1 - i) := rfl
+    rw [ea] at a
+    rw [a]
+    exact E_scales h s m coefs nc P ord simd hord i j ci
+  · have hne : ∀ i j ci, i < nc → j < P → ci ≤ ord →
+        x ≠ (rpar h s coefs nc P ord simd 1).idx j ci ((rpar h s coefs nc P ord simd 1).len - 1 - i) :=
+      fun i j ci hi hj hci he => hx ⟨i, j, ci, hi, hj, hci, he⟩
+    have a := A.2 x hne
+    have b := B.2 x hne
+    rw [a, b]
+    show (0 : R) = m * 0
+    ring
+
 /-- C07: every index `STORE` writes lies inside the `length` items `prepare_poly_fir_coefs` allocates -/
 theorem table_writes_in_bounds (p : Par α) (i j ci : Nat) (hi : i < p.nc) (hj : j < p.P) (hci : ci ≤ p.ord) :
     p.idx j ci (p.len - 1 - i) < p.length := by
